@@ -207,6 +207,162 @@ def foreignOk (fmt : α → Str) : List (FLine α) → Bool
 def foreignImage (ls : List (FLine α)) : List (List α) :=
   (ls.filter (fun l => !l.cells.isEmpty)).map fun l => l.cells.map (·.2.1)
 
+/-! ## text: `load` with its options
+
+`load(path, delimiter=d)` with a delimiter hands the *path* to `np.genfromtxt(path, delimiter=d, comments="#",
+dtype=float64, ndmin=2)`: genfromtxt opens it in text mode itself (universal newlines again), the lines are
+NOT normalised, and `_delimited_splitter` cuts the comment, strips `" \r\n"` and splits at `d`.
+`name=` turns the result into a single-field structured view (`data.dtype = [(name, float64)]`): same shape,
+same values, one field. -/
+
+/-- `LineSplitter._delimited_splitter` with `delimiter=d` (one character), `comments="#"` -/
+def splitLineD (d : Char) (line : Str) : List Str :=
+  let body := strip (cutComment line)
+  if body = [] then [] else splitOn d body
+
+/-- the rows of fields genfromtxt finds.  `delimiter=None`: the lines normalised by `load`, split at `,`;
+`delimiter=d`: the lines of the file as they are, split at `d` -/
+def loaderRows (delim : Option Char) (file : Str) : List (List Str) :=
+  match delim with
+  | none => fieldRows (loaderLines file)
+  | some d => ((pyLines (universalNewlines false file)).map (splitLineD d)).filter (· ≠ [])
+
+/-- from the rows of fields to genfromtxt's table (see `loadFields`) -/
+def tableOf (ndmin : Nat) : List (List Str) → Option (List Nat × List Str)
+  | [] => some (shapeRule ndmin [0], [])
+  | r :: rs =>
+    if rs.all (fun q => q.length == r.length) then
+      some (shapeRule ndmin [rs.length + 1, r.length], (r :: rs).flatten)
+    else none
+
+/-- `loadFields` for `load(path, delimiter=delim)` -/
+def loadFieldsD (delim : Option Char) (ndmin : Nat) (file : Str) : Option (List Nat × List Str) :=
+  tableOf ndmin (loaderRows delim file)
+
+/-- `textimage.load(path, delimiter=delim)`: shape and row-major values; `none` = raises -/
+def loadTextD (conv : Str → α) (delim : Option Char) (ndmin : Nat) (file : Str) : Option (List Nat × List α) :=
+  (loadFieldsD delim ndmin file).map fun (sh, d) => (sh, d.map conv)
+
+/-- what `load` returns: shape, row-major values, and the field of the structured view when `name=` was given -/
+structure Loaded (α : Type) where
+  shape : List Nat
+  data : List α
+  field : Option Str
+  deriving DecidableEq
+
+/-! ## text: sessions — several `save` / `load` calls in one process
+
+pewlib keeps no state between calls: the only thing one call leaves for a later one is the file it wrote.
+The mechanism below threads that file system through a list of calls; the specification answers every
+`load` from the calls before it (the last one that put a file at its path) and from its own options. -/
+
+/-- where the text of a file comes from -/
+inductive Src (α : Type) where
+  /-- `textimage.save(path, img, header=header)` -/
+  | saved (header : Str) (img : List (List α))
+  /-- another tool wrote the image with these separators (one list per row) -/
+  | delimited (seps : List (List Char)) (img : List (List α))
+  /-- any text at all -/
+  | other (text : Str)
+
+def Src.text (fmt : α → Str) : Src α → Str
+  | .saved h img => saveText fmt h img
+  | .delimited seps img => saveWith fmt seps img
+  | .other t => t
+
+inductive Call (α : Type) where
+  | put (path : Nat) (src : Src α)
+  | load (path : Nat) (delim : Option Char) (name : Option Str)
+
+inductive Reply (α : Type) where
+  | done
+  /-- no file at that path (`FileNotFoundError`) -/
+  | missing
+  /-- genfromtxt raised -/
+  | raised
+  | loaded (l : Loaded α)
+  deriving DecidableEq
+
+/-- `textimage.load(path, delimiter=delim, name=name)` on a file with this text -/
+def loadReply (conv : Str → α) (delim : Option Char) (name : Option Str) (file : Str) : Reply α :=
+  match loadTextD conv delim 2 file with
+  | none => .raised
+  | some (sh, d) => .loaded { shape := sh, data := d, field := name }
+
+/-- the file system: the latest text put at a path comes first -/
+def fsGet : List (Nat × Str) → Nat → Option Str
+  | [], _ => none
+  | (q, t) :: r, p => if q = p then some t else fsGet r p
+
+/-- one call: the files afterwards and what the caller sees -/
+def step (fmt : α → Str) (conv : Str → α) (fs : List (Nat × Str)) : Call α → List (Nat × Str) × Reply α
+  | .put p s => ((p, s.text fmt) :: fs, .done)
+  | .load p d n =>
+    (fs, match fsGet fs p with
+      | none => .missing
+      | some f => loadReply conv d n f)
+
+/-- mechanism: the calls one after the other, the file system handed from each to the next -/
+def runSession (fmt : α → Str) (conv : Str → α) : List (Nat × Str) → List (Call α) → List (Reply α)
+  | _, [] => []
+  | fs, c :: cs => (step fmt conv fs c).2 :: runSession fmt conv (step fmt conv fs c).1 cs
+
+/-- the source of the file at `p` after these calls: the last `put` there -/
+def lastPut (p : Nat) : List (Call α) → Option (Src α)
+  | [] => none
+  | c :: cs =>
+    match lastPut p cs with
+    | some s => some s
+    | none =>
+      match c with
+      | .put q s => if q = p then some s else none
+      | .load _ _ _ => none
+
+/-- specification of one call: a function of its own arguments and of the last `put` at its path among the
+calls before it — of nothing else that happened earlier -/
+def replyAt (fmt : α → Str) (conv : Str → α) (before : List (Call α)) : Call α → Reply α
+  | .put _ _ => .done
+  | .load p d n =>
+    match lastPut p before with
+    | none => .missing
+    | some s => loadReply conv d n (s.text fmt)
+
+def specFrom (fmt : α → Str) (conv : Str → α) (before : List (Call α)) : List (Call α) → List (Reply α)
+  | [] => []
+  | c :: cs => replyAt fmt conv before c :: specFrom fmt conv (before ++ [c]) cs
+
+/-- specification of a session -/
+def sessionSpec (fmt : α → Str) (conv : Str → α) (cs : List (Call α)) : List (Reply α) := specFrom fmt conv [] cs
+
+def isDelimB (c : Char) : Bool := c = ',' || c = ';' || c = '\t'
+
+/-- an image: at least one row, at least one column, all rows equally long -/
+def imgOk (img : List (List α)) : Bool :=
+  match img with
+  | [] => false
+  | r :: rs => !r.isEmpty && rs.all (fun q => q.length == r.length)
+
+/-- well-formedness of a source: no carriage return in a header; separators are delimiters, one list per row,
+one separator fewer than columns -/
+def Src.ok : Src α → Bool
+  | .saved h img => !h.contains '\r' && imgOk img
+  | .delimited seps img =>
+    seps.length == img.length && seps.all (·.all isDelimB) && imgOk img &&
+      seps.all (fun ss => ss.length + 1 == (img.headD []).length)
+  | .other _ => true
+
+/-- the image the property says `load(path, delimiter=delim)` returns for a file from this source
+(`none`: the property does not say): a saved image read with the default call (which delimiter `save`
+writes is its own business: the property speaks of reading back, not of the bytes); a delimited file read
+with the default, or with the delimiter it uses throughout -/
+def Src.image? (delim : Option Char) : Src α → Option (List (List α))
+  | .saved _ img => if delim = none then some img else none
+  | .delimited seps img =>
+    match delim with
+    | none => some img
+    | some d => if isDelimB d && seps.all (·.all (· == d)) then some img else none
+  | .other _ => none
+
 /-! ## VTK -/
 
 /-- a 3-D array: `get i j k` for `i < n0`, `j < n1`, `k < n2` -/
@@ -565,5 +721,50 @@ def readBlock (body : List (Word α)) (offset : Nat) : Option (Nat × List α) :
         mapOpt (fun w => match w with | .val a => some a | .len _ => none) ws |>.map fun vs => (n, vs)
       else none
     | _ => none
+
+/-! ## VTK: the appended section byte by byte
+
+`fp.write(np.uint64(n))` writes the 8 bytes of `n` in the machine's byte order, `fp.write(a.ravel("F"))` the 8
+bytes of every float64 in the machine's byte order; the header names that order (`byte_order`).  The bytes of
+a float64 value are opaque here (`enc`, lowest byte first). -/
+
+/-- the 8 bytes of an unsigned 64-bit number, lowest first -/
+def le64 (n : Nat) : List Nat := (List.range 8).map fun i => n / 256 ^ i % 256
+
+/-- the number whose bytes, lowest first, these are -/
+def ofLe64 : List Nat → Nat
+  | [] => 0
+  | b :: bs => b + 256 * ofLe64 bs
+
+/-- the bytes written for one 8-byte word on a little-endian (`little`) or big-endian machine -/
+def wordBytes (little : Bool) (enc : α → List Nat) : Word α → List Nat
+  | .len n => if little then le64 n else (le64 n).reverse
+  | .val a => if little then enc a else (enc a).reverse
+
+def bodyBytes (little : Bool) (enc : α → List Nat) (ws : List (Word α)) : List Nat := ws.flatMap (wordBytes little enc)
+
+/-- `"LittleEndian" if sys.byteorder == "little" else "BigEndian"` -/
+def endianName (little : Bool) : Str := if little then "LittleEndian".toList else "BigEndian".toList
+
+/-- a reader: the UInt64 at byte offset `o`, in the byte order the header declares -/
+def readU64 (little : Bool) (bytes : List Nat) (o : Nat) : Option Nat :=
+  let b := (bytes.drop o).take 8
+  if b.length = 8 then some (ofLe64 (if little then b else b.reverse)) else none
+
+/-- `n` groups of 8 bytes -/
+def groups8 : Nat → List Nat → List (List Nat)
+  | 0, _ => []
+  | n + 1, bs => bs.take 8 :: groups8 n (bs.drop 8)
+
+/-- what a reader does with a declared offset into the appended bytes: the byte count found there, then that many
+bytes as 8-byte values (each delivered lowest byte first) -/
+def readBlockBytes (little : Bool) (bytes : List Nat) (o : Nat) : Option (Nat × List (List Nat)) :=
+  match readU64 little bytes o with
+  | none => none
+  | some n =>
+    let body := (bytes.drop (o + 8)).take n
+    if n % 8 = 0 ∧ body.length = n then
+      some (n, (groups8 (n / 8) body).map fun g => if little then g else g.reverse)
+    else none
 
 end Pew.Export
